@@ -198,7 +198,7 @@ pub fn run(ctx: &Ctx, st: &mut Stats, round: bool) {
     cal();
     let check: fn(&mut Stats, &T) = if round { check_round } else { check_trunc };
     let times = time_pool();
-    let stride = ctx.tier.pick(20_011, 5, 1);
+    let stride = ctx.tier.pick(20_011, ctx.q(5, 1), 1);
     // ---- Date: all dates x 12 units (+ monotonicity on consecutive days)
     ctx.par(st, "Date: all dates x 12 units", true, 0, (N_DAYS as i64 + stride - 1) / stride, |st, i, _| {
         let n = MIN_DAY as i64 + i * stride;
@@ -229,7 +229,7 @@ pub fn run(ctx: &Ctx, st: &mut Stats, round: bool) {
         }
     }
     // ---- Timestamp / OracleDate: all dates x critical times x 12 units
-    let tstride = ctx.tier.pick(40_009, 11, 1);
+    let tstride = ctx.tier.pick(40_009, ctx.q(11, 5), 1);
     let times_ref = &times;
     ctx.par(st, "Timestamp,OracleDate: dates x critical-times x 12 units", true, 0, (N_DAYS as i64 + tstride - 1) / tstride, |st, i, _| {
         let n = MIN_DAY as i64 + i * tstride;
